@@ -549,7 +549,7 @@ fn main() {
     };
     let mut ev = ev;
     ev.merge(ev_small);
-    if args.only.is_none() && args.shard == 0 {
+    if args.blocks() {
         nearly_periodic(&mut ev);
     }
     ev.finish(
